@@ -100,6 +100,10 @@ def check(ctx):
     ctx.attempt(_whitespace_normal_form)
     ctx.attempt(_fixpoint)
     ctx.attempt(_progress)
+    ctx.attempt(_bounded_expansion)
+    ctx.attempt(_cursor_from_match_end)
+    from .layouts import check_dispatch       # a costly context check must not run for layouts that never need it
+    ctx.attempt(check_dispatch)
 
 
 # ----------------------------------------------------------------------
@@ -378,6 +382,86 @@ def _whitespace_normal_form(ctx):
               f"collapses ({s_!r} is left behind), and the substitutions are applied once only: mixed tab/blank runs survive as "
               f"runs of blanks, which the nested whitespace of the list regexes then multiplies per dot / dash leader",
               key="FIXPOINT|reduce_whitespace|single-pass", where=common.loc(fi, subs[j][2]))
+
+
+def _bounded_expansion(ctx):
+    """The numbers of an elided list are at most three digits wide on both
+    ends: range() expansion (and the quadratic duplicate scan behind it) is
+    bounded by 999 items per range, not by 10**k."""
+    for rn, grps in (('multisec_regex', ('secnum', 'secnum_rightmost')),
+                     ('multilot_regex', ('lotnum', 'lotnum_rightmost')),
+                     ('multilot_with_aliquot_regex', ('lotnum', 'lotnum_rightmost'))):
+        rv = common.regex_by_name(ctx, rn)
+        gf = common.group_facts(ctx, rv)
+        for g in grps:
+            if g not in gf:
+                continue
+            ctx.check(gf[g].max_len <= 3 and gf[g].max_len > 0, 'GROW', f"{rn}: <{g}> is at most 3 digits",
+                      f"max length {gf[g].max_len}",
+                      f"<{g}> of {rn} accepts up to {gf[g].max_len} characters: 'Lots 1-99999' expands to ~10^{gf[g].max_len} "
+                      f"items and then goes through the quadratic duplicate scan", key=f"GROW|{rn}|{g}|width", where=rv.module)
+
+
+def _cursor_from_match_end(ctx):
+    """A left-to-right scanning loop restarts its search at (or after) the END
+    of something it matched: the new `pos=` value derives from a `.end()` of
+    a match.  A value built from a start offset plus a length that can be 0
+    (`i + len(stripped_text)`) may not move, and the loop never ends."""
+    n = 0
+    for spec in ('ChunkParser.gen_flags_chunk', 'TractParser.parse'):
+        fi = ctx.repo.func(spec)
+        for loop in walk_local(fi.node):
+            if not isinstance(loop, ast.While):
+                continue
+            for c in ast.walk(loop):
+                if isinstance(c, ast.Call) and isinstance(c.func, ast.Attribute) and c.func.attr == 'search':
+                    for k in c.keywords:
+                        if k.arg == 'pos' and isinstance(k.value, ast.Name) and enclosing_loop(c) is loop:
+                            cur = k.value.id
+                            for a_ in ast.walk(loop):
+                                if isinstance(a_, ast.Assign) and any(isinstance(t, ast.Name) and t.id == cur for t in a_.targets):
+                                    from .. import flow as _flow
+                                    cfg_, rd_ = _flow.analyse(fi.node)
+                                    seen_ = set()
+
+                                    def derives(e, kind):
+                                        # does the arithmetic value of e come from mo.<kind>() (not through len()/slices)?
+                                        if isinstance(e, ast.Call):
+                                            if isinstance(e.func, ast.Attribute) and e.func.attr == kind:
+                                                return True
+                                            if dotted(e.func) in ('min', 'max'):
+                                                return any(derives(x, kind) for x in e.args)
+                                            return False
+                                        if isinstance(e, (ast.Tuple, ast.List)):
+                                            return any(derives(x, kind) for x in e.elts)
+                                        if isinstance(e, ast.BinOp) and isinstance(e.op, (ast.Add, ast.Sub)):
+                                            return derives(e.left, kind) or derives(e.right, kind)
+                                        if isinstance(e, ast.Name):
+                                            node_ = _flow.stmt_node(cfg_, e)
+                                            out_ = False
+                                            for d_ in rd_.reaching(node_, e.id):
+                                                if d_ in seen_ or d_[0] == 'param':
+                                                    continue
+                                                seen_.add(d_)
+                                                v_ = rd_.defs[d_]
+                                                if isinstance(v_, ast.AST) and derives(v_, kind):
+                                                    out_ = True
+                                            return out_
+                                        return False
+                                    has_end = derives(a_.value, 'end')
+                                    seen_.clear()
+                                    has_start = derives(a_.value, 'start') or any(
+                                        isinstance(x, ast.Call) and dotted(x.func) == 'len' for x in ast.walk(a_.value))
+                                    calls = {'end'} if has_end else ({'start'} if has_start else set())
+                                    n += 1
+                                    ctx.tri('end' in calls, 'end' not in calls and ('start' in calls or 'len' in calls), 'PROGRESS',
+                                            f"{fi.qualname}: the next search position `{cur}` derives from the end of a match",
+                                            f"`{norm(a_)}`",
+                                            f"`{norm(a_)}` is built from a start offset / a length, not from the end of a match: when "
+                                            f"the text in between is empty after stripping, the position does not move and the same "
+                                            f"word is found forever", key=f"PROGRESS|{fi.qualname}|{cur}|advance", where=common.loc(fi, a_))
+    if n == 0:
+        ctx.undecided('PROGRESS', 'scan cursors derive from the end of a match', 'no `search(..., pos=cursor)` loop recognised')
 
 
 def _fixpoint_tokens(ctx):
